@@ -3,7 +3,7 @@
 
    engine 1  EvalCtx.evaluate          supp/evaluator.py:36-97   (in-progress set ctx.nodes)
    engine 2  EvalCtx.declarations      supp/evaluator.py:99-141  (F21: no visited set as-is)
-   engine 3  ClassObject._attrs / InstanceValue._attrs  supp/name.py:371-424 (F29: unguarded as-is,
+   engine 3  ClassObject._attrs / InstanceValue._instance_attrs  supp/name.py:371-436 (F29: unguarded as-is,
              F30: a base that is a CompositeValue has no _attrs as-is)
    engine 4  Flow.names / LoopFlow.names  supp/scope.py:82-190  (_resolving flag)
    plus the result-shape level: lint (linter.py:24-47) and location formatting (assistant.py:97-104).
@@ -126,18 +126,19 @@ Definition cattrs_step (c : cfg) (g : graph) (ev_ : evalT) (ca_ : tblT) (s : pro
   | _ => Ok []
   end.
 
-(* InstanceValue._attrs (name.py:415-424), attribute assignments excluded *)
-Definition iattrs_step (c : cfg) (g : graph) (ev_ : evalT) (ca_ ia_ : tblT) (s : prog) (k : nat) : result table :=
+(* InstanceValue._instance_attrs (name.py:416-429): the attributes assigned through an instance in
+   the class or any of its bases.  Attribute assignments are outside this fragment, so the table
+   is empty, but the recursion over the instances of the bases is what has to terminate. *)
+Definition iattrs_step (c : cfg) (g : graph) (ev_ : evalT) (ia_ : tblT) (s : prog) (k : nat) : result table :=
   match lookup g k with
   | Some (NClass bases locals) =>
       if guard_attrs c && mem k (ia s) then Ok []
       else
         let s' := add_ia k s in
-        bind (ca_ s' k) (fun own =>
         bind (mapM (ev_ s') bases) (fun vals =>
         bind (base_objects c vals) (fun bs =>
         bind (mapM (fun b => match b with AClass k' => ia_ s' k' | _ => Ok [] end) bs) (fun tabs =>
-        Ok (concat tabs ++ own)))))
+        Ok (concat tabs))))
   | _ => Ok []
   end.
 
@@ -145,7 +146,8 @@ Definition iattrs_step (c : cfg) (g : graph) (ev_ : evalT) (ca_ ia_ : tblT) (s :
 Definition atom_attr (g : graph) (ca_ ia_ : tblT) (s : prog) (a : ident) (x : atom) : result (option nat) :=
   match x with
   | AClass k => bind (ca_ s k) (fun t => Ok (assoc a t))
-  | AInst k => bind (ia_ s k) (fun t => Ok (assoc a t))
+  | AInst k =>                       (* InstanceValue._attrs: class table, then instance attributes on top *)
+      bind (ca_ s k) (fun t => bind (ia_ s k) (fun t2 => Ok (assoc a (t2 ++ t))))
   | AModule m => match lookup g m with Some (NModule t) => Ok (assoc a t) | _ => Ok None end
   | AFunc _ => Ok None
   | ARuntime _ => Ok None
@@ -215,7 +217,7 @@ with cattrs (fuel : nat) (c : cfg) (g : graph) (s : prog) (k : nat) {struct fuel
 with iattrs (fuel : nat) (c : cfg) (g : graph) (s : prog) (k : nat) {struct fuel} : result table :=
   match fuel with
   | O => OutOfFuel
-  | S f => iattrs_step c g (eval f c g) (cattrs f c g) (iattrs f c g) s k
+  | S f => iattrs_step c g (eval f c g) (iattrs f c g) s k
   end.
 
 (* fuel that suffices for the guarded engines (EvalProofs.eval_total) *)
